@@ -620,7 +620,17 @@ def main(argv=None):
                            "model": c["model"].to_json() if c else None}, f, indent=1)
         print("\nreplay files written to", a.save)
     bad = (accepted != n) or mism or any(k[0] in ("generator", "skeleton", "acceptance") for k in rep.findings)
+    global LAST
+    LAST = {"findings": {"%s|%s" % k: [(seed, what, doc) for (_, seed, what, doc) in sorted(v, key=lambda x: x[0])] for k, v in rep.findings.items()},
+            "counts": dict(rep.counts), "accepted": accepted, "n": n, "mismatches": mism, "harness_runs": len(jobs) + len(blame_jobs),
+            "dist": {k: dict(v) for k, v in dist.items()}, "selfcheck": dict(selfcheck),
+            "fault_stats": {k: dict(v) for k, v in fault_stats.items()},
+            "probes": [(prop, title, bool(good), str(got)) for prop, title, good, got, j in probes],
+            "models": {c["seed"]: c["model"].to_json() for c in cases}}
     return 1 if bad else 0
+
+
+LAST = None
 
 
 class _Quiet:
